@@ -98,6 +98,10 @@ def gen(rng, i, ctx):
             else:
                 P = [[x0, y0], [x0 + t, y0], [x0 + t, yn], [x0 + w, yn], [x0 + w, y0 + h], [x0, y0 + h]]
             regs.append([[float(a), float(b)] for a, b in P])
+            if rng.random() < 0.6 and y0 + h - yn >= 40:
+                # a line below the notch / step, wholly inside the region, whose outline reaches up into the notch and ends exactly at one of its walls
+                asc = int(rng.integers(2, 4)) * 10
+                lines.append({'baseline': [[float(x0 + 10), float(yn + 10)], [float(x0 + (2 * t if len(P) == 8 else t) ), float(yn + 10)]], 'heights': [float(asc), 5.0], 'kind': 'grid'})
             for _ in range(int(rng.integers(1, 4))):
                 ye = int(rng.choice(sorted({p[1] for p in P})))
                 asc, desc = int(rng.integers(1, 4)) * 10, int(rng.integers(1, 3)) * 5
@@ -330,7 +334,7 @@ def check(case, mon, ctx):
     for r in out:
         r.lines = []
     # the multi-orientation extractor distributes the lines of each rotated pass to the same regions with an id suffix: all ids stay distinct
-    for suffix in ('_1', '_3'):
+    for suffix in ('', '_1', '_3'):
         with contextlib.redirect_stdout(io.StringIO()):
             out = Hh.assign_lines_to_regions([b.copy() for b in bls], hs, [t.copy() for t in tls], out, id_suffix=suffix)
     mon.count('suffixed_passes')
